@@ -147,6 +147,9 @@ def r1_operations(chk, fx):
     for it in op_impls(fx):
         name_c = [a for a in it["assoc"] if a.endswith("::NAME")]
         req_c = [a for a in it["assoc"] if a.endswith("::REQUIRED_CAPABILITIES")]
+        if not req_c and (OP_TRAIT + "::REQUIRED_CAPABILITIES") in fx.thir:
+            # not stated by the impl: the trait's default applies
+            req_c = [OP_TRAIT + "::REQUIRED_CAPABILITIES"]
         if not name_c or not req_c:
             raise F.AnchorLost("impl Operation for %s lacks NAME / REQUIRED_CAPABILITIES" % it["self"])
         tn, tr = fx.thir.get(name_c[0]), fx.thir.get(req_c[0])
@@ -595,8 +598,18 @@ SETTER_REQ = {
 def req_text(fx, v):
     """Canonical text of an abstract Requirements value: None | One(X) | Any(X,Y) | All(X,Y)."""
     if v[0] == "const":
-        t = fx.thir.get(v[1])
-        return req_norm(t["body"]) if t is not None else "?const:" + T.short(v[1], 2)
+        d = v[1]
+        if len(v) > 2 and d.startswith(OP_TRAIT + "::"):
+            # <X as Operation>::CONST: the value is the one of X's impl (the trait's default only if the impl states none);
+            # for `Self` inside the trait's own methods it is whatever the implementing operation declares
+            st = v[2]
+            impl = [it for it in op_impls(fx) if it["self"] == st or T.strip_generics(it["self"]) == T.strip_generics(st)]
+            if st == "Self" or not impl:
+                return "?const:" + T.short(d, 2)
+            own = [a for a in impl[0]["assoc"] if a.endswith("::" + d.rsplit("::", 1)[1])]
+            d = own[0] if own else d
+        t = fx.thir.get(d)
+        return req_norm(t["body"]) if t is not None else "?const:" + T.short(d, 2)
     if v[0] == "adt" and v[1].endswith("capabilities::Requirements"):
         if v[2] == "None":
             return NONE
